@@ -869,7 +869,7 @@ func (ps *PathSim) funcOfSym(s *Sym) (*ssa.Function, []*Sym) {
 	switch s.K {
 	case sFunc:
 		if f, ok := s.V.(*ssa.Function); ok {
-			return f, nil
+			return unwrapThunk(f), nil
 		}
 	case sClosure:
 		if mc, ok := s.V.(*ssa.MakeClosure); ok {
@@ -1570,4 +1570,34 @@ func joinPath(a, b string) string {
 		return b
 	}
 	return a + "." + b
+}
+
+// unwrapThunk: a method-expression thunk (synthetic: it hands its parameters, in order, to one static call and returns
+// the result) stands for the method it calls.
+func unwrapThunk(f *ssa.Function) *ssa.Function {
+	if f == nil || f.Synthetic == "" || !strings.Contains(f.Name(), "$thunk") || len(f.Blocks) != 1 {
+		return f
+	}
+	var call *ssa.Call
+	for _, ins := range f.Blocks[0].Instrs {
+		switch x := ins.(type) {
+		case *ssa.Call:
+			if call != nil {
+				return f
+			}
+			call = x
+		case *ssa.Return, *ssa.Extract, *ssa.DebugRef:
+		default:
+			return f
+		}
+	}
+	if call == nil || call.Call.StaticCallee() == nil || len(call.Call.Args) != len(f.Params) {
+		return f
+	}
+	for i, a := range call.Call.Args {
+		if a != ssa.Value(f.Params[i]) {
+			return f
+		}
+	}
+	return call.Call.StaticCallee()
 }
